@@ -7,6 +7,8 @@
 #include "vproxy.h"
 #include "common.h"
 #include "sched_omp.h"
+#include <fstream>
+#include <fcntl.h>
 
 using namespace vc;
 
@@ -86,6 +88,11 @@ static Outcome execute(Conf const &c, int mode, int T, std::vector<int> const &p
     };
   std::string conf = std::string("smp ") + smp_kw + "\n" + c.body;
   if (px->config(conf) != 0) { fprintf(stderr, "HARNESS-ERROR: %s rejected: %s\n", c.name, px->errtxt.c_str()); exit(2); }
+  // run-time feature of the scripting interface ("cv colvar <name> set collect_gradient 1"): per-atom gradients of the
+  // variable, accumulated from all its components
+  for (auto *cv : *(px->colvars->variables()))
+    if (cv->value().type() == colvarvalue::type_scalar) cv->enable(colvardeps::f_cv_collect_gradient);
+  cvm::clear_error();
   for (long s = 0; s < nsteps; s++) {
     place(*px, s);
     int rc = px->step(s);
@@ -93,6 +100,8 @@ static Outcome execute(Conf const &c, int mode, int T, std::vector<int> const &p
     for (auto *cv : *(px->colvars->variables())) {
       colvarvalue const &v = cv->value();
       if (v.type() == colvarvalue::type_scalar) o.nums.push_back(v.real_value);
+      if (cv->is_enabled(colvardeps::f_cv_collect_gradient))
+        for (auto const &g : cv->atomic_gradients) { o.nums.push_back(g.x); o.nums.push_back(g.y); o.nums.push_back(g.z); }
     }
     o.nums.push_back(px->energy);
     for (int a = 0; a < c.natoms; a++) { o.nums.push_back(px->fapp[a].x); o.nums.push_back(px->fapp[a].y); o.nums.push_back(px->fapp[a].z); }
@@ -202,22 +211,47 @@ int main(int argc, char **argv)
     Result total;
     int reps = thorough ? 200 : 40;
     for (auto &c : confs)
-      for (int T = 2; T <= 4; T++)
-        for (int k = 0; k < reps; k++) {
-          std::vector<int> none;
-          Outcome ref = execute(c, VSCHED_SERIAL, 1, none, nsteps, "off");
-          Outcome o = execute(c, VSCHED_FREE, T, none, nsteps, c.reduction ? "inner_loop" : "cvcs");
+      for (int T = 2; T <= 4; T++) {
+        // one child per (configuration, thread count): a ThreadSanitizer report ends the child with exit code 66
+        std::string repfile = std::string("tsan_") + c.name + "_" + std::to_string(T) + ".txt";
+        std::string out;
+        int rc = run_isolated([&]() {
+          int fd = open(repfile.c_str(), O_WRONLY | O_CREAT | O_TRUNC, 0644);
+          if (fd >= 0) { dup2(fd, 2); close(fd); }
+          Result r;
+          for (int k = 0; k < reps; k++) {
+            std::vector<int> none;
+            Outcome ref = execute(c, VSCHED_SERIAL, 1, none, nsteps, "off");
+            Outcome o = execute(c, VSCHED_FREE, T, none, nsteps, c.reduction ? "inner_loop" : "cvcs");
+            r.count("evaluations");
+            r.count("transitions", nsteps);
+            r.seen("nontrivial", fnv(std::string(c.name) + std::to_string(T)));
+            r.seen("states", fnv(std::string(c.name) + std::to_string(T) + std::to_string(k)));
+            bool eq = o.nums.size() == ref.nums.size();
+            for (size_t i = 0; eq && i < o.nums.size(); i++)
+              if (!close_rel(o.nums[i], ref.nums[i], std::max(1.0, std::fabs(ref.nums[i])), c.reduction ? 1e-12 : 0.0, c.reduction ? 1e-14 : 0.0)) eq = false;
+            if (!eq || o.errors != ref.errors || o.depth != ref.depth)
+              r.violation(std::string("C12:free-running-result-differs:") + c.name,
+                          std::string("{\"config\":\"") + c.name + "\",\"threads\":" + std::to_string(T) + "}");
+          }
+          std::string t = r.ser();
+          if (write(3, t.data(), t.size()) < 0) return 5;
+          return 0;
+        }, 3000, &out);
+        if (rc == 0) total.deser(out);
+        else if (rc == 66) {
+          std::string rep, line, summary;
+          std::ifstream f(repfile.c_str());
+          int nl = 0;
+          while (std::getline(f, line)) {
+            if (line.find("SUMMARY:") != std::string::npos && summary.empty()) summary = line;
+            if (nl++ < 12) rep += line + "\n";
+          }
           total.count("evaluations");
-          total.count("transitions", nsteps);
-          total.seen("nontrivial", fnv(std::string(c.name) + std::to_string(T)));
-          total.seen("states", fnv(std::string(c.name) + std::to_string(T) + std::to_string(k)));
-          bool eq = o.nums.size() == ref.nums.size();
-          for (size_t i = 0; eq && i < o.nums.size(); i++)
-            if (!close_rel(o.nums[i], ref.nums[i], std::max(1.0, std::fabs(ref.nums[i])), c.reduction ? 1e-12 : 0.0, c.reduction ? 1e-14 : 0.0)) eq = false;
-          if (!eq || o.errors != ref.errors || o.depth != ref.depth)
-            total.violation(std::string("C12:free-running-result-differs:") + c.name,
-                            std::string("{\"config\":\"") + c.name + "\",\"threads\":" + std::to_string(T) + "}");
-        }
+          total.violation(std::string("C12:data-race-reported-by-ThreadSanitizer:") + c.name,
+                          std::string("{\"config\":\"") + c.name + "\",\"threads\":" + std::to_string(T) + ",\"summary\":\"" + jesc(summary) + "\",\"report\":\"" + jesc(rep) + "\"}");
+        } else { fprintf(stderr, "HARNESS-ERROR: free-running child for %s T=%d ended with %d\n", c.name, T, rc); return 2; }
+      }
     total.sample("{\"mode\":\"free-running under ThreadSanitizer\",\"threads\":[2,3,4],\"repetitions\":" + std::to_string(reps) + "}");
     write_result(args.out, "C12", args.tier, total, true);
     return 0;
